@@ -248,7 +248,7 @@ theorem evalSingleArgument_effect (cfg : Cfg) (h : HState) (ai : It) (h' : HStat
   unfold evalSingleArgument at he
   split at he
   · exact processArg_effect _ _ _ _ _ _ _ he
-  · cases hk : Key.parse ai.cur.str with
+  · cases hk : wordKey ai.cur.str with
     | throw e => rw [hk] at he; cases he
     | oob w => rw [hk] at he; cases he
     | ok key =>
